@@ -290,10 +290,11 @@ func c15RudeNeighbour(c *core.Collector, seed uint64, rounds int) {
 		g := gen.G{Rand: core.NewRand(seed, "c15rude", uint64(round))}
 		p := attGenPlan(g, 0, false) // index 0: JS dialect
 		for i := range p.Files {
+			// (one chunk per file: with a handler that takes 15 ms per event a session of thousands of tiny chunks would take minutes)
 			if p.Files[i].Size > 4096 {
 				p.Files[i].Size = 1 + g.Intn(4096)
-				p.Files[i].Chunks = [][2]int{{0, p.Files[i].Size}}
 			}
+			p.Files[i].Chunks = [][2]int{{0, p.Files[i].Size}}
 		}
 		p.Gen, p.Mode = "rude-neighbour", "single write"
 		b := attBuild(p)
